@@ -7,6 +7,7 @@ import Cte.Model.Decode
 import Cte.Model.Check
 import Cte.Model.Purge
 import Cte.Model.Energy
+import Cte.Model.RadTable
 open Cte
 
 def warnKindStr : WarnKind → String
@@ -69,10 +70,7 @@ def indicatorsWith (F : Fns) (req : J) (m : Model) : J :=
   let fsh : Id → Option Rat := fun id => match fshJ.get? id with
     | some (J.num n mm e) => some (J.numVal n mm e)
     | _ => none
-  let radJ := (req.get? "radjul").getD (J.obj [])
-  let rad : Orient → Option Rat := fun o => match radJ.get? o.str with
-    | some (J.num n mm e) => some (J.numVal n mm e)
-    | _ => none
+  let rad : Orient → Option Rat := radJul m.info.climate
   let wp := m.wallProps F
   let wc := m.winConsProps F
   let wins := m.winProps F fsh
@@ -110,16 +108,33 @@ def indicatorsWith (F : Fns) (req : J) (m : Model) : J :=
       ("walls_c_a_ref", jr n.wallsCARef), ("walls_c", jr n.wallsC), ("walls_c_a", jr n.wallsCA),
       ("windows_a", jr n.windowsA), ("windows_c", jr n.windowsC), ("windows_c_a", jr n.windowsCA), ("vol", jr n.vol)]),
     ("qsoljul", J.obj [
-      ("Q_soljul", jr q.qSum), ("a_ref", jr q.aRef), ("a_wp", jr q.aWp), ("irr_sum", jr q.irrSum),
-      ("fsh_sum", jr q.fshSum), ("g_sum", jr q.gSum), ("ff_sum", jr q.fFSum), ("missing_rad", J.bool q.missingRad),
+      ("Q_soljul", jr q.qSum), ("q_soljul", jr q.q), ("a_ref", jr q.aRef), ("a_wp", jr q.aWp),
+      ("irradiance_mean", jr q.irrMean), ("fshobst_mean", jr q.fshMean), ("gglshwi_mean", jr q.gMean),
+      ("f_f_mean", jr q.fFMean), ("missing_rad", J.bool q.missingRad),
       ("detail", J.obj (q.detail.map (fun d => (d.orient.str, J.obj [
-        ("gains", jr d.gains), ("a", jr d.a), ("irradiance", jr d.irradiance), ("ff_sum", jr d.fFSum),
-        ("g_sum", jr d.gSum), ("fsh_sum", jr d.fshSum)]))))])]
+        ("gains", jr d.gains), ("a", jr d.a), ("irradiance", jr d.irradiance), ("f_f_mean", jr d.fFMean),
+        ("gglshwi_mean", jr d.gMean), ("fshobst_mean", jr d.fshMean)]))))])]
 
 /-- the three runs: exact rounding, and every rounding nudged down / up by about one f32 ulp -/
 def opIndicators (req : J) (m : Model) : J :=
   J.obj [("base", indicatorsWith (Fns.approx 0) req m), ("lo", indicatorsWith (Fns.approx (-1)) req m),
          ("hi", indicatorsWith (Fns.approx 1) req m)]
+
+def tiltCode : TiltC → Nat | .bottom => 0 | .top => 1 | .side => 2
+def orientCode : Orient → Nat
+  | .n => 0 | .ne => 1 | .e => 2 | .se => 3 | .s => 4 | .sw => 5 | .w => 6 | .nw => 7 | .hz => 8
+
+/-- op `classify`: exact f32 angles (bit patterns) through the two classifiers of the model -/
+def opClassify (req : J) : J :=
+  match req.get? "points" with
+  | some (J.arr pts) =>
+    J.obj [("points", J.arr (pts.map (fun p =>
+      match p.get? "bits" with
+      | some (J.num false b 0) =>
+        let x := f32ToRat b
+        J.obj [("bits", J.ofNat b), ("tilt", J.ofNat (tiltCode (tiltClass x))), ("orient", J.ofNat (orientCode (orientClass x)))]
+      | _ => J.null)))]
+  | _ => J.obj [("error", J.str "no points")]
 
 def withModel (req : J) (f : Model → J) : J :=
   match req.get? "model" with
@@ -139,6 +154,8 @@ def handle (line : String) : String :=
       | some (J.str "check") => withModel req opCheck
       | some (J.str "purge") => withModel req opPurge
       | some (J.str "indicators") => withModel req (opIndicators req)
+      | some (J.str "classify") => opClassify req
+      | some (J.str "noop") => J.obj []
       | some (J.str "load") => withModel req (fun _ => J.obj [("ok", J.bool true)])
       | _ => J.obj [("error", J.str "unknown op")]
     match ans with
